@@ -48,6 +48,7 @@ class Scheduler {
 
   public:
     //! 创建一个协程，并返回协程Token。创建后不自动执行，需要一次 resume()
+    //! 在 cleanup() 执行期间调用则不创建协程，返回空Token
     RoutineToken create(const RoutineEntry &entry,
                         bool run_now = true,            //! 是否立即运行
                         const std::string &name = "",   //! 子协程名
